@@ -121,6 +121,17 @@ def isDRS (body : J) : Except Err Bool :=
 def markKey (body : J) (key : List Char) : Except Err (List Char) := do
   if ← isDRS body then pure (key ++ "-ofDRS".toList) else pure key
 
+/-- the annotation names an annotations storage (prefix, v1) uses for the record `key` on `body`:
+    `make_keys(key, body=body)` = `mark_key` then V2/V1 forming. A function of its arguments only:
+    the storage object carries no state from the objects it served before. -/
+def keysFor (h : Hashes) (v1 : Bool) (prefix_ key : String) (body : J) : Except Err (List String) := do
+  let k ← markKey body key.toList
+  makeKeys h v1 prefix_.toList k
+
+/-- one storage serving a sequence of bodies: the i-th answer. -/
+def serveSeq (h : Hashes) (v1 : Bool) (prefix_ key : String) (bodies : List J) : List (Except Err (List String)) :=
+  bodies.map (keysFor h v1 prefix_ key)
+
 /-! ### dict helpers -/
 
 /-- `dicts.resolve(d, path)` without a default. -/
